@@ -458,7 +458,7 @@ func sqlSitesAreAlternatives(p *Program, root *ssa.Function, byFn map[*ssa.Funct
 
 func checkMemoryLocking(c *Ctx, rule string) {
 	p := c.P
-	lm := p.lockAnalysis("queue", "MemoryStore", "mu")
+	lm := p.lockAnalysis("queue", "MemoryStore", p.mutexField("queue", "MemoryStore"))
 	var fields []string
 	for f := range lm.Mutable {
 		fields = append(fields, f)
